@@ -83,8 +83,9 @@ class Check:
         """instance-count floor: fewer instances than confirmed by hand is analysis-broken"""
         self.floors[rule] = {"measured": measured, "floor": floor, "what": what}
         if measured < floor:
-            raise AnalysisBroken("rule %s: %d instances of '%s' found, floor is %d (anchor moved or rule went blind)"
-                                 % (rule, measured, what, floor))
+            # decided at finish(): a refuted obligation is reported first; with none, the run is analysis-broken
+            self.floor_broken = getattr(self, "floor_broken", []) + [
+                "rule %s: %d instances of '%s' found, floor is %d (anchor moved or rule went blind)" % (rule, measured, what, floor)]
 
     def require(self, cond, msg):
         if not cond:
@@ -141,6 +142,8 @@ class Check:
             for dk, dv in ({} if getattr(self, "brief", False) else (o.detail or {})).items():
                 print("    %s: %s" % (dk, dv if isinstance(dv, str) else json.dumps(dv)))
         self._write_evidence(n, np_, nr, nu, viol, known_hit)
+        if not viol and getattr(self, "floor_broken", None):
+            raise AnalysisBroken("; ".join(self.floor_broken))
         return 1 if viol else 0
 
     def _write_evidence(self, n, np_, nr, nu, viol, known_hit):
